@@ -21,5 +21,6 @@ CONSTANTS
   BugPadCredit = FALSE
   EncodeAtEnqueue = FALSE
   BugZeroCostHeld = FALSE
+  SplitOnlyAtEnqueue = FALSE
 INVARIANTS WithinGrant WithinMaxFrame CreditReturned NoEligibleQueued LedgerAgrees PrefixFidelity
 CHECK_DEADLOCK FALSE
